@@ -1447,10 +1447,31 @@ class ModuleScope(VhdlScope):
 
     _additional_reserved = {
         "std_logic",
+        "std_ulogic",
         "std_logic_vector",
         "signed",
         "unsigned",
         "resize",
+        "boolean",
+        "integer",
+        "natural",
+        "positive",
+        "bit",
+        "string",
+        "character",
+        "true",
+        "false",
+        "to_unsigned",
+        "to_signed",
+        "to_integer",
+        "shift_left",
+        "shift_right",
+        "rising_edge",
+        "falling_edge",
+        "work",
+        "ieee",
+        "std",
+        "cohdl_bool_to_std_logic",
     }
 
     def __init__(self, *, additional_reserved_names: set[str] = None):
